@@ -393,6 +393,18 @@ def D2_type_counts(repo, clause, kinds=("atom",) + KINDS, pair=True):
         from verif_sa.pe import decision_list_inlined
         dl = decision_list_inlined(repo, fn, {"self": P("self")}, nz)
         table_len = ("call", "len", ("args", ("attr", P("self"), tables[k])), ("kws",))
+        # a conditional expression in a return is two paths
+        split = []
+        for conds, res in dl:
+            work = [(tuple(conds), res)]
+            while work:
+                cs, rs = work.pop(0)
+                if rs[0] == "ret" and isinstance(rs[1], tuple) and rs[1] and rs[1][0] in ("ifexp", "phi") and len(rs[1]) == 4:
+                    work.append((cs + (rs[1][1],), ("ret", rs[1][2])))
+                    work.append((cs + (("not", rs[1][1]),), ("ret", rs[1][3])))
+                else:
+                    split.append((cs, rs))
+        dl = split
         for i, (conds, res) in enumerate(dl):
             if res[0] != "ret":
                 obs.append(Ob("D2", clause, fn, fn.node, False, "leaf #%d raises" % i, construct="def num_%s_types leaf %d" % (k, i), slot="%s:leaf%d" % (k, i)))
@@ -442,6 +454,15 @@ def D2_type_counts(repo, clause, kinds=("atom",) + KINDS, pair=True):
                 and v.args[1].value.id == et.params[1]
             seen[t] = n
             obs.append(Ob("D2", clause, et, n, ok, "table %s of the other structure is appended to the same table of self" % t, slot="append:%s" % t))
+            # the append of table T may depend on T only: a guard on ANOTHER table of the other structure (`if len(other.pair_coeffs) > 0:` around the bonded tables)
+            # drops T for structures that have T but not that other table, while the type ids of the terms are still offset
+            for g_, pol_, k_ in norm_guards(et, n):
+                attrs_ = {y.attr for y in ast.walk(g_) if isinstance(y, ast.Attribute) and isinstance(y.value, ast.Name) and y.value.id in (et.params[1], "self")}
+                foreign = sorted(a_ for a_ in attrs_ if a_ != t and (a_.endswith("coeffs") or a_.endswith("_types") or a_.endswith("masses") or a_.endswith("labels") or a_.endswith("elements")))
+                if foreign and t not in attrs_:
+                    obs.append(Ob("D2", clause, et, n, False,
+                                  "the append of table %s is guarded by `%s`, a test on %s: a structure that has %s but not that table keeps the offset type ids and loses the coefficient rows they point at" % (
+                                      t, ast.unparse(g_)[:50], "/".join(foreign), t), slot="append-guard:%s" % t, positive="robust"))
     need = set(tables.values()) | {"atom_type_masses", "atom_type_labels"}
     missing = sorted(need - set(seen))
     obs.append(Ob("D2", clause, et, et.node, not missing, "every counted type table is merged by extend_types (missing: %s)" % (missing or "none"),
@@ -852,10 +873,33 @@ def D4_windows(repo, clause):
         if wpol == skip_form:
             # `if not inside: <keep>` or `if inside: continue` would invert the window
             obs.append(Ob("D4", clause, win, tests[0], False, "window test has inverted polarity: atoms INSIDE the window are skipped", slot="polarity"))
-        pairs = _cmp_pairs(wtest)
         gs = norm_guards(win, lp)
         is_tri = any("cell_is_orthorhombic" in ast.unparse(t) and not pol for t, pol, k in gs)
         which = "triclinic" if is_tri else "orthorhombic"
+        slab = _centred_slab(win, wtest, posname, D) if is_tri else None
+        if slab is not None:
+            # vectorised centre-symmetric form: |unit normals . (pos - cell centre)| <= H for the three axes at once; the asymmetric window [-w - r, r] measured from the
+            # origin face is the slab of half width w/2 + r around the cell centre
+            recognised, hform, why = slab
+            if not recognised:
+                obs.append(Ob("D4", clause, win, tests[0], False, "triclinic window in centred-slab form, but %s" % why, slot="triclinic:slab-unrecognised", undecided=True))
+            else:
+                pc = sum(v for k, v in hform.items() if k not in (D, "") and "planedists" in k or re.match(r"^\w*(dist|width)\w*$", k or "") and k != D)
+                rc = hform.get(D, 0)
+                other = [k for k in hform if k not in (D, "") and not ("planedists" in k or re.match(r"^\w*(dist|width)\w*$", k))]
+                if other:
+                    obs.append(Ob("D4", clause, win, tests[0], False, "triclinic slab half width has unrecognised terms %s" % other, slot="triclinic:slab-unrecognised", undecided=True))
+                else:
+                    for ax in (0, 1, 2):
+                        for side in ("lower", "upper"):
+                            nb += 1
+                            obs.append(Ob("D4", clause, win, tests[0], rc >= 1 and pc >= 0.5 and hform.get("", 0) >= 0,
+                                          "triclinic window, axis %s, %s bound in centred-slab form: half width %s must be at least planewidth/2 + r (the window [-w - r, r] seen from the "
+                                          "cell centre); found %s x planewidth + %s x r" % (ax, side, hform, pc, rc),
+                                          construct="slab half width", slot="triclinic:axis%s:%s" % (ax, side), positive="robust"))
+                    obs.append(Ob("D4", clause, win, tests[0], True, "triclinic window (centred slabs) bounds all three axes on both sides", construct="if <window test>", slot="triclinic:coverage"))
+            continue
+        pairs = _cmp_pairs(wtest)
 
         def is_coord(e, posname=posname):
             return any(isinstance(x, ast.Name) and x.id == posname for x in ast.walk(e))
@@ -927,6 +971,43 @@ def D4_windows(repo, clause):
     floor("D4", "window bounds", nb, 18)
     # the filtered array's rows are the results of the previous axis' filter (p -> p1 -> p2)
     return obs
+
+
+def _centred_slab(win, wtest, posname, D):
+    """Recognise `(np.abs(np.dot(U, pos - C)) <= H).all()` / np.all(...) with U = unit plane normals (nvs / their norms, row-wise) and C = the cell centre.
+    Returns None when the test is not of that form at all, else (recognised?, affine form of H, reason)."""
+    t = wtest
+    if isinstance(t, ast.Call) and call_name(t) == "all":
+        if isinstance(t.func, ast.Attribute) and isinstance(t.func.value, ast.Compare):
+            t = t.func.value
+        elif t.args and isinstance(t.args[0], ast.Compare):
+            t = t.args[0]
+    if not (isinstance(t, ast.Compare) and len(t.ops) == 1 and isinstance(t.ops[0], (ast.LtE, ast.Lt, ast.GtE, ast.Gt))):
+        return None
+    l, r = (t.left, t.comparators[0]) if isinstance(t.ops[0], (ast.LtE, ast.Lt)) else (t.comparators[0], t.left)
+    if not (isinstance(l, ast.Call) and call_name(l) in ("abs", "absolute", "fabs") and l.args):
+        return None
+    d = l.args[0]
+    if not (isinstance(d, ast.Call) and call_name(d) == "dot" and len(d.args) == 2) and not (isinstance(d, ast.BinOp) and isinstance(d.op, ast.MatMult)):
+        return None
+    a0, a1 = (d.args if isinstance(d, ast.Call) else (d.left, d.right))
+    uexp, vexp = (a0, a1) if any(isinstance(x, ast.Name) and x.id == posname for x in ast.walk(a1)) else (a1, a0)
+    if not (isinstance(vexp, ast.BinOp) and isinstance(vexp.op, ast.Sub) and isinstance(vexp.left, ast.Name) and vexp.left.id == posname):
+        return (False, None, "the projected vector `%s` is not pos - centre" % ast.unparse(vexp))
+    cen = re.sub(r"\s+", "", ast.unparse(expand(win, vexp.right))).replace(win.params[0] + ".cell", "cell")
+    if cen not in ("cell.sum(axis=0)/2", "cell.sum(0)/2", "0.5*cell.sum(axis=0)", "cell.sum(axis=0)*0.5", "(cell[0]+cell[1]+cell[2])/2", "np.sum(cell,axis=0)/2"):
+        return (False, None, "the slab centre `%s` is not recognised as the cell centre" % cen[:40])
+    un = re.sub(r"\s+", "", ast.unparse(expand(win, uexp)))
+    un = un.replace("None", "np.newaxis").replace(win.params[0] + ".cell", "cell")
+    nv = r"(np\.array\(\[np\.cross\(cell\[0\],cell\[1\]\),np\.cross\(cell\[0\],cell\[2\]\),np\.cross\(cell\[1\],cell\[2\]\)\]\)|nvs)"
+    if not (re.fullmatch(nv + r"/(np\.linalg\.norm\(" + nv + r",axis=1\)|nvnorms)\[:,np\.newaxis\]", un)
+            or re.fullmatch(nv + r"/(np\.linalg\.norm\(" + nv + r",axis=1,keepdims=True\))", un)
+            or re.fullmatch(r"\(" + nv + r"\.T/(np\.linalg\.norm\(" + nv + r",axis=1\)|nvnorms)\)\.T", un)):
+        return (False, None, "the projection directions `%s` are not recognised as the unit plane normals" % un[:50])
+    h = affine(expand(win, r, stop_names=["planedists"]))
+    if h is None:
+        return (False, None, "the half width `%s` is not affine" % ast.unparse(r)[:40])
+    return (True, h, "")
 
 
 def _axis_of(x, posname):
